@@ -26,6 +26,8 @@ structure St where
   singleplex : Bool := false
   tmoClose : Bool := false   -- ghost: checkTimeout initiated a close
   tmoBusy  : Bool := false   -- ghost: … while an open stream existed and no open was in flight
+  tmoPending : Bool := false -- ghost: the timer goroutine has passed its test and has not done its CAS on `closed` yet
+  tmoCasBusy : Bool := false -- ghost: the timer goroutine's CAS closed the session while a stream was open
 deriving Repr
 
 inductive Ev
@@ -33,7 +35,7 @@ inductive Ev
   | recvNew (id : Nat) | recvIncr
   | csCAS (id : Nat) | csTomb (id : Nat) | csDecr
   | cas | sweep | closeAll
-  | accept | checkTimeout | addConn
+  | accept | checkTimeout | tmoCas | addConn
 deriving Repr
 
 def nOpen : List (Nat × Ent) → Nat
@@ -82,6 +84,9 @@ def step (s : St) : Ev → St × Res
   | .recvNew id =>
     if s.closed then (s, .refused)
     else if hasId id s.tbl then (s, .none)
+    else if Gen.Session.acceptBacklog ≤ (s.accq.length : Int) then
+      -- the accept backlog is full: the stream is refused and its id remembered as closed (select … default)
+      ({ s with tbl := (id, .tomb) :: s.tbl }, .refused)
     else ({ s with tbl := (id, .opn) :: s.tbl, accq := s.accq ++ [id], pendIncr := s.pendIncr + 1 }, .ok)
   | .recvIncr =>
     match s.pendIncr with
@@ -112,7 +117,13 @@ def step (s : St) : Ev → St × Res
     | [] => if s.qclosed then (s, .refused) else (s, .block)
   | .checkTimeout =>
     if Gen.Session.timeoutCond s.count s.closed then
-      ({ s with tmoClose := true, tmoBusy := s.tmoBusy || (decide (0 < nOpen s.tbl) && decide (s.pendIncr = 0)) }, .ok)
+      ({ s with tmoClose := true, tmoPending := true,
+                tmoBusy := s.tmoBusy || (decide (0 < nOpen s.tbl) && decide (s.pendIncr = 0)) }, .ok)
+    else (s, .none)
+  | .tmoCas =>   -- the `closeSession` CAS of the `Close()` that `checkTimeout` calls after its test
+    if s.tmoPending then
+      if s.closed then ({ s with tmoPending := false }, .repeat_)
+      else ({ s with closed := true, tmoPending := false, tmoCasBusy := s.tmoCasBusy || decide (0 < nOpen s.tbl) }, .ok)
     else (s, .none)
   | .addConn => ({ s with conns := s.conns ++ [true] }, .ok)
 
